@@ -814,8 +814,7 @@ namespace Pistache::Http
         timeout_.disarm();
         auto buf = buf_.buffer();
 
-        auto fd = peer()->fd();
-        transport_->asyncWrite(fd, buf);
+        transport_->asyncWrite(*peer(), buf);
         transport_->flush();
 
         buf_.clear();
@@ -1002,9 +1001,7 @@ namespace Pistache::Http
 
 #undef OUT
 
-            auto fd = peer()->fd();
-
-            return transport_->asyncWrite(fd, buffer)
+            return transport_->asyncWrite(*peer(), buffer)
                 .then<std::function<Async::Promise<ssize_t>(ssize_t)>,
                       std::function<void(std::exception_ptr&)>>(
                     [=](ssize_t data) {
@@ -1098,15 +1095,14 @@ namespace Pistache::Http
 
         auto* transport = writer.transport_;
         auto peer       = writer.peer();
-        auto sockFd     = peer->fd();
 
         // The file is queued right behind its header: were it queued only once the header
         // has been written, whatever is queued for the connection in between (the answer to
         // the next pipelined request) would go out between the header and the body.
         auto buffer    = buf->buffer();
-        auto header    = transport->asyncWrite(sockFd, buffer, MSG_MORE);
+        auto header    = transport->asyncWrite(*peer, buffer, MSG_MORE);
         auto fileWrite = std::make_shared<Async::Promise<ssize_t>>(
-            transport->asyncWrite(sockFd, FileBuffer(fileName)));
+            transport->asyncWrite(*peer, FileBuffer(fileName)));
         return header.then(
             [fileWrite](ssize_t) {
                 return std::move(*fileWrite);
